@@ -45,6 +45,11 @@ Definition optZ_eqb (a b : option Z) : bool :=
 Definition oracle_ip (facts : list str_fact) (s : str) : bool :=
   existsb (fun f => str_eqb (sf_s f) s && sf_is_ip f) facts.
 
+Definition spec_domain (is_ip : str -> bool) (c : obs_choose) : str :=
+  if oc_normalize c then
+    match spec_sniffed_host is_ip (oc_lt c) with Some h => h | None => oc_domain c end
+  else oc_domain c.
+
 Definition events_of_probe (c : obs_choose) (asked : bool) : list event :=
   if asked then
     match oc_answer c with
@@ -92,18 +97,22 @@ Definition check_choose (mode : dial_mode) (st : cp_state) (ievs mevs : list eve
   (* the spec's notion of a built-in outbound: outside the user-defined range *)
   let builtin := builtin_outbound (oc_outbound c) in
   (* spec, once with what the implementation did before (ievs), once with what the model did (mevs) *)
-  let ik := knowledge_now neg_ttl ievs key dom (oc_now c) in
+  (* the name the spec works with: for a value that went through the sniffers' normaliser, the host the
+     spec itself reads out of the raw value (where it names one); else the value as passed *)
+  let sdom := spec_domain is_ip c in
+  let scls := classify is_ip sdom in
+  let ik := knowledge_now neg_ttl ievs key sdom (oc_now c) in
   let mk := knowledge_now neg_ttl mevs key dom (s_now st) in
   let e2 :=
-      err (eqb (oc_reroute c) (spec_reroute is_ip mode builtin cls ik)) n 2 1 ++
-      err (if endpoint_constrained is_ip mode builtin cls ik
-           then opt_split_eqb (oc_target_split c) (Some (spec_endpoint is_ip mode reserved (d_ip dst) (d_port dst) cls ik))
+      err (eqb (oc_reroute c) (spec_reroute is_ip mode builtin scls ik)) n 2 1 ++
+      err (if endpoint_constrained is_ip mode builtin scls ik
+           then opt_split_eqb (oc_target_split c) (Some (spec_endpoint is_ip mode builtin (d_ip dst) (d_port dst) scls ik))
            else true) n 2 2 in
   let e3 :=
       err (eqb (o_use_name o) (spec_use_name is_ip mode builtin cls mk)) n 3 1 ++
       err (eqb (o_reroute o) (spec_reroute is_ip mode builtin cls mk)) n 3 2 ++
       err (if endpoint_constrained is_ip mode builtin cls mk && literal_clean cls && dest_wf dst
-           then denotes (o_target o) (spec_endpoint is_ip mode reserved (d_ip dst) (d_port dst) cls mk)
+           then denotes (o_target o) (spec_endpoint is_ip mode builtin (d_ip dst) (d_port dst) cls mk)
            else true) n 3 3 in
   (e1 ++ e4 ++ e2 ++ e3, st', ievs ++ events_of_probe c (oc_probed c), mevs ++ events_of_probe c asked).
 
@@ -133,18 +142,21 @@ Definition check_dial (mode : dial_mode) (st : cp_state) (ievs mevs : list event
       err (eqb (existsb (str_eqb dom) (s_real st')) (oc_real_hit c)) n 1 5 ++
       err (optZ_eqb (assoc_get dom (s_neg st')) (oc_neg c)) n 1 6 ++
       err (Z.eqb (s_now st) (oc_now c)) n 1 7 in
-  let ik := knowledge_now neg_ttl ievs key dom (oc_now c) in
+  let sdom := spec_domain is_ip c in
+  let scls := classify is_ip sdom in
+  let ik := knowledge_now neg_ttl ievs key sdom (oc_now c) in
   let mk := knowledge_now neg_ttl mevs key dom (s_now st) in
+  let sfin_i := spec_final_outbound is_ip mode (builtin_outbound (oc_outbound c)) (oc_outbound c) route_to scls ik in
   let sfin (k : knowledge) := spec_final_outbound is_ip mode (builtin_outbound (oc_outbound c)) (oc_outbound c) route_to cls k in
   let e2 :=
       match final with
       | Some f =>
-          err (f =? sfin ik) n 2 3 ++
-          err (if endpoint_constrained is_ip mode (builtin_outbound (sfin ik)) cls ik
+          err (f =? sfin_i) n 2 3 ++
+          err (if endpoint_constrained is_ip mode (builtin_outbound sfin_i) scls ik
                then opt_split_eqb (oc_target_split c)
-                                  (Some (spec_endpoint is_ip mode (builtin_outbound (sfin ik)) (d_ip dst) (d_port dst) cls ik))
+                                  (Some (spec_endpoint is_ip mode (builtin_outbound sfin_i) (d_ip dst) (d_port dst) scls ik))
                else true) n 2 2
-      | None => err (negb (sfin ik <? n_groups)) n 2 3
+      | None => err (negb (sfin_i <? n_groups)) n 2 3
       end in
   let e3 :=
       err (fin =? sfin mk) n 3 4 ++
